@@ -1123,10 +1123,9 @@ def hp2dms(hp):
     :return: Degrees, Minutes, Seconds Object
     :rtype: DMSAngle
     """
-    degmin, second = divmod(abs(hp) * 1000, 10)
-    degree, minute = divmod(degmin, 100)
-    return (DMSAngle(degree, minute, second * 10, positive=True) if hp >= 0
-            else DMSAngle(degree, minute, second * 10, positive=False))
+    degree, minute, second = _hp_fields(float(hp))
+    return (DMSAngle(degree, minute, second, positive=True) if hp >= 0
+            else DMSAngle(degree, minute, second, positive=False))
 
 
 def hp2ddm(hp):
@@ -1137,9 +1136,8 @@ def hp2ddm(hp):
     :return: Degrees, Decimal Minutes Object
     :rtype: DDMAngle
     """
-    degmin, second = divmod(abs(hp) * 1000, 10)
-    degree, minute = divmod(degmin, 100)
-    minute = minute + (second / 6)
+    degree, minute, second = _hp_fields(float(hp))
+    minute = minute + (second / 60)
     return DDMAngle(degree, minute, positive=True) if hp >= 0 else DDMAngle(degree, minute, positive=False)
 
 
@@ -1245,7 +1243,9 @@ def dec2hp_v(dec):
 
 
 def hp2dec_v(hp):
-    degmin, second = divmod(abs(hp) * 1000, 10)
+    # round off the float noise of the multiplication (e.g. 2.01 * 1000 =
+    # 2009.9999999999998) before the fields are split
+    degmin, second = divmod((abs(hp) * 1000).round(10), 10)
     degree, minute = divmod(degmin, 100)
     dec = degree + (minute / 60) + (second / 360)
     dec[hp <= 0] = -dec[hp <= 0]
